@@ -39,13 +39,14 @@ PLAN = dict(
                 "monotone counter, labels of a later call fresh; the guard cannot be dropped (C14_compile_labels_unique_refuted = known finding "
                 "label-collision-name-digits: VIOL class=label-collision-name-digits iff a label is defined twice AND LabelGuard.name_digits holds; "
                 "any other duplicate stays class=asm-ill-formed*); jump-table stride for AArch64 (B) and RISC-V (JAL x0). Encodability on "
-                "AArch64 / RISC-V is checked on the implementation's output, not proved; round 3 (x86-64): asm_wf cs = None is a THEOREM for the complete "
+                "AArch64 / RISC-V: see round 4 below; round 3 (x86-64): asm_wf cs = None is a THEOREM for the complete "
                 "output of x86_compile (C14_x86_compile_asm_wf: every emitted instruction encodable incl. memory operations, table jumps, push/pop, "
                 "calls, prologue/epilogue; labels unique and defined; externs declared, never shadowed) under boolean guards on the program "
                 "(labels_guard, calls_guard, lin_check_prog, plain_names, plain_types, imm_guard = literals 64-bit / Substitute <= 2^31 pairs / "
                 "types <= 2^28 xtors), code_small under size_guard (cg_bound_defs <= 2^40, from C19); the linear discipline cannot be dropped "
                 "(C14_x86_compile_asm_wf_lin_needed: imul [mem], reg); step wf-x86 tags thm / out:<hypothesis> / small-thm and answers "
-                "VIOL class=asm-wf-theorem-contradicted when a real program inside the hypotheses fails asm_wf",
+                "VIOL class=asm-wf-theorem-contradicted when a real program inside the hypotheses fails asm_wf"
+                " Round 4 (AArch64 / RISC-V): asm_wf cs = None is a THEOREM for the complete output of a64_compile and rv_compile (C14_a64_compile_asm_wf: labels_guard, lin_check_prog, plain names / types, imm_guard_a64 = at most 1024 xtors per type, reach_guard_a64 = 28 + cg_fine_defs 14 74 < 262143 instructions so that every B.cond / ADR target is within 1 MiB - a two-weight refinement of the C19 size theorem, Proof/SizeCodegenFine.v; C14_rv_compile_asm_wf: labels_guard, lin_check_prog, imm_guard_rv = literals 64-bit, at most 512 xtors), code_small for both; the xtor bounds and the AArch64 reach are REAL limits of the back ends (findings in docs/C14.md: a codata type with 1100 / 600 destructors gives `ADD X7, X7, 4396` / `ADD X1 X7 2396`; an else branch over 1 MiB gives a B.cond out of range) and are shown necessary in Coq (C14_a64_compile_asm_wf_xtors_needed, C14_rv_compile_asm_wf_xtors_needed); steps wf-a64 / wf-rv tag thm / out:<hypothesis> / small-thm (quick stream: 220 of 227 and 115 of 116 programs inside, the rest fail lin_check) and answer VIOL class=asm-wf-theorem-contradicted when a real program inside the hypotheses fails asm_wf",
     assumptions=["instr_wf of Sem/X86Wf.v, Sem/A64Wf.v, Sem/RVWf.v follow the Intel SDM / Arm ARM / RISC-V unprivileged ISA encodings of the forms the printers emit",
                  "GNU as acceptance of the printed x86-64 text is exercised by the native step of C01; no AArch64 / RISC-V assembler exists in the sandbox "
                  "(the RISC-V text of this back end has no accepted concrete syntax: registers X5, no commas, `LW X5 8 X6`)",
